@@ -82,6 +82,40 @@ pub fn run(args: &Args) -> Report {
         files.push((p, want));
     }
     let files = Arc::new(files);
+    // ---- many plain threads at once, each mapping a big file (more simultaneous mappings than any
+    // per-process cap a library might impose: 72 threads released by one barrier, three waves) ----
+    {
+        let nthreads = 72usize;
+        let big: Vec<usize> = (0..files.len()).filter(|i| i % 6 >= 1).collect();
+        for wave in 0..3 {
+            let barrier = Arc::new(std::sync::Barrier::new(nthreads));
+            let handles: Vec<_> = (0..nthreads)
+                .map(|t| {
+                    let (files, barrier, big) = (files.clone(), barrier.clone(), big.clone());
+                    std::thread::spawn(move || {
+                        let i = big[(t + wave * 7) % big.len()];
+                        let mut h = blake3::Hasher::new();
+                        barrier.wait();
+                        let r = if (t + wave) % 3 == 0 { h.update_mmap_rayon(&files[i].0).map(|_| ()) } else { h.update_mmap(&files[i].0).map(|_| ()) };
+                        (i, r.map(|_| *h.finalize().as_bytes()).map_err(|e| format!("{:?}", e.kind())))
+                    })
+                })
+                .collect();
+            for (t, hd) in handles.into_iter().enumerate() {
+                match hd.join() {
+                    Ok((i, r)) => {
+                        rep.eval(format!("threads72/wave{}/file{}", wave, i));
+                        match r {
+                            Ok(d) if d == files[i].1 => {}
+                            other => rep.violation("C18/rust/many-mappings/mismatch", format!("{} threads each mapping one file of 1-9 MiB at the same time (wave {}): thread {} got {:?} for file {}, which alone hashes to {}", nthreads, wave, t, other.map(|d| hex(&d)), i, hex(&files[i].1)), vec!["c18".into(), "--pool-files".into(), "1".into()]),
+                        }
+                    }
+                    Err(_) => rep.violation("C18/rust/many-mappings/panic", format!("thread {} panicked", t), vec!["c18".into(), "--pool-files".into(), "1".into()]),
+                }
+            }
+        }
+        rep.count("simultaneous_big_mmap_threads", nthreads as u64);
+    }
     let observer = gettid();
     let deadline = Duration::from_secs(if args.thorough { 900 } else { 300 });
     'pools: for &threads in &[3usize, 6, 4] {
